@@ -68,7 +68,8 @@ def fixed_param(draw, cost, p):
             return draw(elem)
         return [draw(elem) for _ in range(p)]
 
-    mean_elem = st.one_of(st.integers(-5, 5).map(float), st.floats(-10, 10, allow_nan=False))
+    # moderate dynamic range (section 3.1): 0 or 1e-3 <= |mean| <= 10 - never the subnormal-squared region
+    mean_elem = st.one_of(st.integers(-5, 5).map(float), D.generic_float(10.0, 1e-3))
     param = {"mean": scalar_or_vec(mean_elem), "int_typed": draw(st.sampled_from([False, False, True]))}
     if param["int_typed"]:
         # integral values written as Python ints / integer arrays: mean 1, variance 2, covariance [[2,1],[1,3]]
